@@ -113,7 +113,7 @@ theorem HInv_run : ∀ (es : List HEv) (s s' : HS), HInv s → s.run es = some s
 /-! ### watchdog -/
 
 
-structure WInv (s : WD) : Prop where
+structure WdInv (s : WD) : Prop where
   cfg : 1 ≤ s.cap
   wr : ∀ i, s.pc = .writing i → s.cycleDwrs = i ∧ s.cycleTimers = i ∧ i < s.R + 1
   sel : ∀ i, s.pc = .selecting i → s.cycleDwrs = i + 1 ∧ s.cycleTimers = i ∧ i < s.R + 1
@@ -123,14 +123,14 @@ structure WInv (s : WD) : Prop where
       s.gone = true ∧ (s.pc = .sleeping ∨ s.pc = .stopped)
   le : s.cycleDwrs ≤ s.R + 1
 
-theorem WInv_init (R cap : Nat) (dr : Bool) (hc : 1 ≤ cap) : WInv (WD.init R cap dr) := by
+theorem WdInv_init (R cap : Nat) (dr : Bool) (hc : 1 ≤ cap) : WdInv (WD.init R cap dr) := by
   constructor <;> simp [WD.init, hc]
 
 macro "winv_close" h:ident : tactic => `(tactic| (
   obtain ⟨h0, h1, h2, h3, h4, h5, h6⟩ := $h
   constructor <;> simp_all <;> grind))
 
-theorem WInv_step (s s' : WD) (e : WdEv) (h : WInv s) (hs : s.step e = some s') : WInv s' := by
+theorem WdInv_step (s s' : WD) (e : WdEv) (h : WdInv s) (hs : s.step e = some s') : WdInv s' := by
   cases e with
   | wdTimer =>
     simp only [WD.step] at hs
@@ -218,7 +218,7 @@ theorem WInv_step (s s' : WD) (e : WdEv) (h : WInv s) (hs : s.step e = some s') 
     · cases hs
     · cases hs; winv_close h
 
-theorem WInv_run : ∀ (es : List WdEv) (s s' : WD), WInv s → s.run es = some s' → WInv s'
+theorem WdInv_run : ∀ (es : List WdEv) (s s' : WD), WdInv s → s.run es = some s' → WdInv s'
   | [], s, s', h, hr => by simp [WD.run] at hr; subst hr; exact h
   | e :: es, s, s', h, hr => by
     simp only [WD.run] at hr
@@ -226,7 +226,7 @@ theorem WInv_run : ∀ (es : List WdEv) (s s' : WD), WInv s → s.run es = some 
     | none => simp [hst] at hr
     | some s1 =>
       simp only [hst] at hr
-      exact WInv_run es s1 s' (WInv_step s s1 e h hst) hr
+      exact WdInv_run es s1 s' (WdInv_step s s1 e h hst) hr
 
 def silentRounds (n : Nat) : List WdEv := (List.replicate n [WdEv.writeOk, WdEv.rtTimer]).flatten
 
